@@ -61,6 +61,41 @@ PROPS = {
   'assumptions': ['buffers are byte strings (0..255)', 'the inflater is arbitrary in the theorem; in the correspondence it is the Gallina reference inflate'],
   'timeout_quick': 900,
  },
+ 'C10': {
+  'level_text': 'Coq theorems (closed under the global context): each listed rejection rule of the stream machine holds in EVERY state where it applies (so for every '
+                'placement of the offending chunk), for every inflater: wrong signature, first chunk not IHDR, second IHDR, exact IHDR field validation against the table '
+                'of 15 legal pairs (65536-pair sweep lifted), second PLTE, image-data chunks not consecutive (readiness flags cleared only at the end of a data run), fdAT '
+                'without fcTL / shorter than 4 bytes, sequence-number gaps, exact frame-rectangle validation over unbounded integers; every rejection poisons the decoder '
+                'and (C07) no later call can succeed. Rules enforced above the stream machine (no image data, filter byte > 4, short/corrupt deflate data) and the model '
+                'itself are decided / tied by fault injection at every site and by all chunk-kind sequences up to length 5 (6) against a reference automaton.',
+  'level_note': 'Trusted: Coq kernel; hand model of stream.rs tied by differential execution; translator for chunk constants / is_critical / benign list; the Reader-level rules '
+                '(MissingImageData, UnknownFilterMethod, NoMoreImageData) are checked on the implementation only; fdeflate by contract.',
+  'gen_items': ['chunk.consts', 'chunk.is_critical', 'parse_chunk.benign', 'signature'],
+  'model_name': 'Model/Stream.v (L0 machine) with the reference inflater',
+  'rule': 'cases = for each generated valid PNG/APNG (all colour types, interlace, ancillary chunks, 1-4 frames) every injection class (signature, IHDR placement and '
+          'fields, second PLTE, no IDAT, split IDAT run, truncated/corrupt zlib stream of a random frame, sequence numbers, fdAT without fcTL, short fdAT, frame rectangle '
+          'empty/outside/wrapping, undefined filter byte) with CRCs recomputed, under three option sets; the affected frame must not be delivered Ok. Plus all chunk-kind '
+          'sequences over a 9-letter alphabet to length 5 (6 thorough) against the reference ordering automaton. distinct = (class, base) signatures.',
+  'trusted_base': ['hand model of src/decoder/stream.rs in coq/Model/Stream.v, tied by differential execution', 'reference ordering automaton in harness/src/c10.rs'],
+  'assumptions': ['header fields are bytes', 'CRCs of injected files are recomputed so that the structure, not the checksum, is what is refused'],
+ },
+ 'C11': {
+  'level_text': 'Coq theorems (closed under the global context) about the CRC transition and the inflater wrapper of the stream-machine model, for every state/field value/'
+                'inflater: a CRC mismatch in a critical chunk, in fdAT, or with skipping off is a fatal CrcMismatch that poisons the decoder; a matching CRC completes the chunk; '
+                'a skipped ancillary mismatch emits nothing; with ignore_crc the transition is independent of the field and the CRC is not accumulated; every inflate call asks '
+                'for Adler-32 verification exactly as the latched flag says and the flag survives every reset. The full statement "a chunk with a wrong CRC contributes nothing" '
+                'is REFUTED for parsed ancillary kinds by a machine-checked witness (known finding). Tied and searched by per-chunk corruption on every run.',
+  'level_note': 'Trusted: Coq kernel; hand model of stream.rs/zlib.rs wrapper tied by differential execution; fdeflate honours the ignore-Adler flag (contract, tested every run). '
+                'Known finding listed in known_findings.json: ancillary chunks are parsed before their CRC is compared.',
+  'gen_items': ['chunk.is_critical', 'DecodeOptions::default'],
+  'model_name': 'Model/Stream.v parse_u32 (KCrc), z_decompress, zreset',
+  'rule': 'cases = for each generated valid PNG/APNG: every chunk (sampled when > 8) x {data bit flip, CRC bit flip, CRC replaced, type bit flip} x {skip on, skip off}: '
+          'critical/fdAT/skip-off must fail no later than the chunk\'s frame, ancillary+skip must equal the stream without the chunk or fail; all CRC fields replaced (0, ~0, random) under '
+          'ignore_crc must give the identical Reader result and event trace; the Adler-32 of a random frame\'s stream corrupted, checked on (must fail that frame) and off (identical result). '
+          'distinct = (chunk type, corruption kind, option set, position) signatures.',
+  'trusted_base': ['hand model of src/decoder/stream.rs in coq/Model/Stream.v, tied by differential execution', 'fdeflate Adler-32 behaviour by contract'],
+  'assumptions': ['"result" = Reader-level metadata + pixels (the CRC value carried inside ChunkComplete events is not part of it)'],
+ },
 }
 
 NOT_APPLICABLE = {}
